@@ -42,7 +42,7 @@ func runFuncs(c *core.Ctx) core.Result {
 	rt := gj.NewRuntime()
 	goja.VerifSetFuel(rt, opsFuel)
 	setMapper(rt, mapper)
-	installNatives(rt)
+	installNatives(rt, nil)
 	if _, err := rt.RunString(jsPrelude); err != nil {
 		panic(err)
 	}
